@@ -176,6 +176,27 @@ func (c *Check) routerRoles2(id string) *RouterRoles2 {
 			}
 		}
 	}
+	if r.StartLit == nil {
+		// the goroutine may be a named method started with `go` (its parameters bind to the arguments of that one site)
+		AllInstrs(r.RunHandlers, func(in ssa.Instruction) {
+			g, ok := in.(*ssa.Go)
+			if !ok {
+				return
+			}
+			f := FuncOfValue(g.Call.Value)
+			if f == nil {
+				f = CalleeFn(&g.Call)
+			}
+			if f == nil || f.Pkg != r.RunHandlers.Pkg {
+				return
+			}
+			for _, cl := range CallsIn(f) {
+				if CalleeFn(cl.Common()) == r.RunLoop {
+					r.StartLit = f
+				}
+			}
+		})
+	}
 	// self-close literal: a goroutine literal (anywhere in Run's helpers) that calls Close
 	for _, fn := range r.Funcs {
 		if fn.Parent() == nil {
